@@ -164,6 +164,21 @@ class C10(Prop):
                 lines.append("a16l %s %s" % (hp, hexcols(cols[i:i + batch])))
         yield "rgb_to_ansi stratified sample, 10 palettes x %d colours (%d colours per case)" % (per_pal, batch), lines
 
+        # the same colour looked up in two palettes that differ in ONE slot, back to back in one process:
+        # a result may not depend on an earlier call (a memo keyed on the colour / on part of the palette)
+        lines = []
+        for i in range(800 if thorough else 400):
+            base = list(pals[i % len(pals)][1])
+            col = tuple(rng.randrange(256) for _ in range(3)) if i % 3 else base[rng.randrange(16)]
+            j = rng.randrange(16)
+            other = list(base)
+            other[j] = col if i % 2 == 0 else tuple(min(255, max(0, c + rng.choice([-1, 0, 1]))) for c in col)
+            k = "a16l" if i % 4 else "lrgb"
+            lines.append("%s %s %s" % (k, hexpal(base), hexcols([col])))
+            lines.append("%s %s %s" % (k, hexpal(other), hexcols([col])))
+            lines.append("%s %s %s" % (k, hexpal(base), hexcols([col])))
+        yield "same colour, palettes differing in one slot, consecutive calls (1 colour per case)", lines
+
         # generic conversions of RGB colours (color_to_*), smaller sample
         lines = []
         for _name, p in pals:
